@@ -459,7 +459,7 @@ fn random_docs(fi: usize, n: usize, seed: u64, corpus: &Corpus, part: &mut Part)
 fn long_docs(fi: usize, part: &mut Part) {
     let f = &FEATURES[fi];
     const FRAGS: &[&str] = &[
-        " _a", " *a", "*a **b ", "a* ", "[a ", "[a](u) ", "`a ", "<b> ", "a@b.c ", "www.x.y ", "$a ", "~a ", "^a ", "\\* ", "&amp; ", "![a", "\"a\" ", "a--b ", "a\n", "> a\n",
+        " _a", " *a", "*a **b ", "a* ", "[a ", "[a](u) ", "`a ", "<b> ", "a@b.c ", "www.x.y ", "WWW.X.Y/Z ", "HTTPS://X.Y/Z ", "A@B.C ", "$a ", "~a ", "^a ", "\\* ", "&amp; ", "![a", "\"a\" ", "a--b ", "a\n", "> a\n",
         "- a\n", "1. a\n", "|a|b|\n", "a\n\n", "# a\n", "[^a] ", ": a\n", "||a ", "== ",
     ];
     const WRAPS: &[(&str, &str)] = &[("", "\n"), ("*foo", " bar*\n"), ("[", "](u)\n"), ("**x __y", " y__ x**\n"), ("> ", "\n")];
